@@ -8,7 +8,7 @@ from graphql.execution.values import get_variable_values
 from .e2e import generate_client
 
 SCHEMA = """
-enum Color { RED GREEN }
+enum Color { RED GREEN @deprecated(reason: "use RED") }
 input Inner { "documented, with a default" n: Int = 7 "documented, nullable, no default" tag: String }
 input _Cmp { _eq: String _in: [String!] }
 input Filter { "documented nullable enum" color: Color "documented nullable object" inner: Inner "documented list" ids: [ID!] maybe: [Int] className: String modelDump: String modelFields: Int copy: Int cmp: _Cmp }
@@ -78,6 +78,7 @@ def run_cases():
         case("list-of-non-null", "plain", dict(b=[], c=[1, 2]), {"b": [], "c": [1, 2]})
         case("nested-input-unset-fields-absent", "with_input", dict(f=it.Filter(color=en.Color.RED, inner=it.Inner(tag="t"))),
              {"f": {"color": "RED", "inner": {"tag": "t", "n": 7}}})
+        case("deprecated-enum-value-is-still-a-value", "with_input", dict(f=it.Filter(color=en.Color.GREEN)), {"f": {"color": "GREEN"}})
         case("list-of-inputs-with-none", "with_input", dict(fs=[None, it.Filter(ids=["1"])]), {"fs": [None, {"ids": ["1"]}]})
         case("keyword-field-name-travels-by-graphql-name", "with_input", dict(f=it.Filter(class_name="x")), {"f": {"className": "x"}})
         case("fields-named-like-BaseModel-attributes-travel-by-graphql-name", "with_input",
